@@ -483,7 +483,20 @@ pub fn exec(w: &[&str], obs: &mut Obs) -> Option<String> {
                     obs.violation("fault-changed-result", &case(), &format!("{} {}", outcome, pos));
                 }
                 if outcome == "err:io" && faults == 0 { obs.violation("io-error-without-fault", &case(), ""); }
-                if !fits && !equal && !outcome.starts_with("err:") { obs.violation("small-buffer-not-error", &case(), outcome); }
+                let zero_cap = matches!(cap, CapW::Fresh(0) | CapW::Recycled(0));
+                if zero_cap {
+                    // probe (known finding): a zero-length builder buffer is treated as slice mode and the
+                    // reader reports a clean end without reading a byte, although input is pending
+                    if outcome == "end" && !d.is_empty() {
+                        obs.violation("zero-capacity-buffer-drops-input", &case(), &format!("clean end at {} with {} bytes pending, {} delivered", pos, d.len(), deliv));
+                    }
+                } else if !fits && !equal && !outcome.starts_with("err:") {
+                    obs.violation("small-buffer-not-error", &case(), outcome);
+                }
+                // C08_too_small_is_error on the real code: caps >= 1, fault-free, some token does not fit
+                if !zero_cap && !fits && !faulty && !matches!(cap, CapW::Slice) && outcome != "err:bufferfull" {
+                    obs.violation("small-buffer-not-bufferfull", &case(), outcome);
+                }
                 if outcome == "end" && !matches!(cap, CapW::Slice) && deliv != d.len() && fits { obs.violation("clean-end-before-all-delivered", &case(), ""); }
                 obs.count(&format!("{}:{}{}{}", w[0], outcome, if fits { "" } else { ":small" }, if faulty { ":faulty" } else { "" }));
                 format!("{} {} {} {}", join(&toks), outcome, pos, deliv)
@@ -925,6 +938,14 @@ pub fn gen_c08(g: &mut Gen) {
         }
     }
     g.count("long-strings");
+
+    // 3b. probe of a known finding: TokenReader::builder().buffer_len(0) reports a clean end
+    // immediately (oracle kind zero-capacity-buffer-drops-input); about five cases per run
+    for (sw, h) in [("-", "0c0001000000"), ("R1", "2838010003000400"), ("2,F,1", "0e0001"), ("-", "0f000300454e47"), ("P", "0100")] {
+        g.emit(format!("bstream 0 {} {}", sw, h));
+    }
+    g.emit("bstream 0 - -".to_string()); // empty input: a clean end is correct
+    g.count("zero-capacity-probe");
 
     // 4. inputs of at most 12 bytes: every composition schedule, capacities from the minimum up
     let n_small = g.budget(150, 1200);
